@@ -1,6 +1,7 @@
 import Srctools.Proofs.C17Collapse
 import Srctools.Proofs.C17Names
 import Mathlib.Algebra.Field.Rat
+import Srctools.Proofs.Heap
 /-!
 # C17 — instance collapse transforms contents exactly and leaves the template intact
 
@@ -304,7 +305,64 @@ theorem C17_template_shared_defect :
     readCells (collapseCells .fresh f (collapseCells .fresh f st [0]).2 [0]).2 [0] = [['r','e','d']] := by
   decide +kernel
 
+/-! ## the template is not modified (general object graphs, through the shared `Heap` library)
+
+`Srctools/Model/Heap.lean` / `Proofs/Heap.lean` (built for C09) model the store as a list of
+objects with reference fields; `deepCopy` allocates a fresh object for every mutable node. -/
+
+/-- A history of collapses of the template rooted at `l`: each round deep-copies the template in
+the current store (`Solid.copy` / `Entity.copy`, every mutable part getting a fresh object) and then
+mutates only objects allocated by that copy or later (`localise` on the new brushes, key / output /
+fixup renames on the new entities, anything done to the target map). -/
+inductive Collapses (l : Nat) : Heap.Store → Heap.Store → Prop where
+  | done (h : Heap.Store) : Collapses l h h
+  | round {h h1 h2 : Heap.Store} {l' n : Nat} {ops : List Heap.Op} :
+      Heap.WF h → Heap.deepCopy n h l = some (h1, l') →
+      (∀ op ∈ ops, ∀ t, op.target = some t → h.length ≤ t) →
+      Collapses l (Heap.run ops h1) h2 → Collapses l h h2
+
+/-- **Template immutability from the frame theorem.** After any number of collapses the abstract
+value of the template (to every depth) is what it was. That `collapse_one` writes only through
+the copies is the correspondence's part (the template's export text is compared before/after
+every collapse); that the copies are deep is `Gen.Copy`/the id-walk (C09) and, for the one slot
+that was shared in 2.5.0, `C17_template_shared_defect`. -/
+theorem C17_template {l : Nat} {h h' : Heap.Store} (c : Collapses l h h') :
+    ∀ m, Heap.abs m h' l = Heap.abs m h l := by
+  induction c with
+  | done h => intro m; rfl
+  | round wf e hw _ ih =>
+    intro m
+    rw [ih m]
+    exact (Heap.copy_indep wf ((Heap.adequate_deep _).from l) e).2.2.2.1 _ hw m
+
+/-- Each copy denotes the template's value at the time of the copy (= its original value). -/
+theorem C17_template_copy {l l' n : Nat} {h0 h h1 : Heap.Store} (c : Collapses l h0 h)
+    (wf : Heap.WF h) (e : Heap.deepCopy n h l = some (h1, l')) :
+    ∀ m, Heap.abs m h1 l' = Heap.abs m h0 l := by
+  intro m
+  rw [(Heap.copy_indep wf ((Heap.adequate_deep _).from l) e).1 m, C17_template c m]
+
 /-! ## non-vacuity -/
+
+/-- A template entity (mutable, class 1) with one mutable FixupValue cell (class 2): one collapse
+round that overwrites the copy's cell leaves the template's value alone. -/
+example :
+    let h : Heap.Store := [⟨2, true, [(0, .val 7)]⟩, ⟨1, true, [(0, .ref 0)]⟩]
+    ∃ h', Collapses 1 h h' ∧ h'.length = 4 ∧ h'[2]? = some ⟨2, true, [(0, .val 99)]⟩ ∧
+      Heap.abs 3 h' 1 = Heap.abs 3 h 1 := by
+  intro h
+  have wf : Heap.WF h := Heap.wf_of_B (by decide) (by decide)
+  have e : Heap.deepCopy 3 h 1 = some (h ++ [⟨2, true, [(0, .val 7)]⟩, ⟨1, true, [(0, .ref 2)]⟩], 3) := by
+    decide +kernel
+  have c : Collapses 1 h (Heap.run [Heap.Op.write 2 0 (.val 99)]
+      (h ++ [⟨2, true, [(0, .val 7)]⟩, ⟨1, true, [(0, .ref 2)]⟩])) := by
+    refine Collapses.round wf e ?_ (Collapses.done _)
+    intro op hop t ht
+    simp only [List.mem_singleton] at hop
+    subst hop
+    simp only [Heap.Op.target, Option.some.injEq] at ht
+    subst ht; decide
+  exact ⟨_, c, by decide +kernel, by decide +kernel, C17_template c 3⟩
 
 /-- A quarter turn about z (yaw 90) over the integers is orthogonal with determinant 1. -/
 example : Orth (⟨0, 1, 0, -1, 0, 0, 0, 0, 1⟩ : M3 Int) ∧ (⟨0, 1, 0, -1, 0, 0, 0, 0, 1⟩ : M3 Int).det = 1 := by
@@ -316,8 +374,10 @@ example : Orth (⟨0, 1, 0, -1, 0, 0, 0, 0, 1⟩ : M3 Int) ∧ (⟨0, 1, 0, -1, 
 example :
     let P : Placement Rat := ⟨⟨3/5, 4/5, 0, -4/5, 3/5, 0, 0, 0, 1⟩, ⟨10, -20, 30⟩⟩
     let ax : UVAxis Rat := ⟨⟨0, 1, 0⟩, 16, 1/4⟩
-    Orth P.R ∧ texCoord (localiseAxis P ax) (place P ⟨1, 2, 3⟩) = 24 ∧ texCoord ax ⟨1, 2, 3⟩ = 24 := by
-  refine ⟨?_, ?_, ?_⟩
+    Orth P.R ∧ Orth P.R.transpose ∧
+    texCoord (localiseAxis P ax) (place P ⟨1, 2, 3⟩) = 24 ∧ texCoord ax ⟨1, 2, 3⟩ = 24 := by
+  refine ⟨?_, ?_, ?_, ?_⟩
+  · unfold Orth; decide +kernel
   · unfold Orth; decide +kernel
   · decide +kernel
   · decide +kernel
